@@ -457,9 +457,14 @@ func (g *Gen) Modification(s *CPSession) *ModSpec {
 		}
 	case 8: // the control plane moves the session to a new CP F-SEID
 		m.NewCPSEID = s.Peer.NewCPSEID()
-		f := *s.FAR(1)
-		m.UpdateFAR = append(m.UpdateFAR, &f)
-		m.Tag = "newCPSEID+uF"
+		if g.c(2, "fseid-only") == 1 {
+			// nothing but the new CP F-SEID (SMF-set take-over, F-SEID re-allocation)
+			m.Tag = "newCPSEID"
+		} else {
+			f := *s.FAR(1)
+			m.UpdateFAR = append(m.UpdateFAR, &f)
+			m.Tag = "newCPSEID+uF"
+		}
 	}
 	// a session meets at most one kind of known-finding trigger, so that a
 	// discrepancy is attributed to the right one
